@@ -221,7 +221,53 @@ pub fn get(prop: &str, tier: &str) -> Option<Check> {
     })
 }
 
-pub fn selftest(_seed: u64) -> i32 {
-    crate::stdout_line("selftest: not implemented yet");
-    0
+/// Determinism self-test: for every batch of every property the first runs are executed in
+/// this process and in child processes with 1 and 5 worker threads; event-log hashes and
+/// observable digests must agree run by run. Exit 2 on any mismatch (never a VIOLATION).
+pub fn selftest(seed: u64) -> i32 {
+    let props = ["C01", "C02", "C03", "C04", "C05", "C06", "C07", "C08", "C09", "C10", "C11", "C12", "C13", "C14", "C15", "C16", "C17", "C18", "C19", "C20"];
+    let exe = std::env::current_exe().expect("exe");
+    let n: u64 = std::env::var("VERIF_SELFTEST_RUNS").ok().and_then(|s| s.parse().ok()).unwrap_or(300);
+    let mut total = 0u64;
+    let mut mismatches = 0u64;
+    let mut seen: std::collections::BTreeSet<(String, u32, bool)> = Default::default();
+    for p in props {
+        let c = get(p, "quick").unwrap();
+        for (bi, b) in c.batches.iter().enumerate() {
+            // each scenario/variant once
+            if !seen.insert((b.name.to_string(), b.cfg.variant, b.cfg.faults)) {
+                continue;
+            }
+            let m = n.min(b.runs);
+            let mine: Vec<String> = crate::driver::hashes(&c, bi, 0, m, seed).into_iter().map(|(i, h, o)| {
+                let mut oh: u64 = 0xcbf29ce484222325;
+                for x in &o {
+                    oh = (oh ^ *x as u64).wrapping_mul(0x100000001b3);
+                }
+                format!("{} {:016x} {:016x}", i, h, oh)
+            }).collect();
+            for threads in ["1", "5"] {
+                let out = std::process::Command::new(&exe)
+                    .args(["hashes", p, &bi.to_string(), "0", &m.to_string()])
+                    .env("VERIF_THREADS", threads)
+                    .env("VERIF_SEED", seed.to_string())
+                    .output()
+                    .expect("child");
+                let theirs: Vec<String> = String::from_utf8_lossy(&out.stdout).lines().map(|l| l.to_string()).collect();
+                total += m;
+                let bad = mine.iter().zip(theirs.iter()).filter(|(a, b)| a != b).count() as u64 + (mine.len() as i64 - theirs.len() as i64).unsigned_abs();
+                if bad > 0 {
+                    mismatches += bad;
+                    crate::stdout_line(&format!("MISMATCH {} batch {} ({}) threads={}: {} of {} runs differ", p, bi, b.name, threads, bad, m));
+                }
+            }
+            crate::stdout_line(&format!("determinism {} {} ok ({} runs x 3 executions)", p, b.name, m));
+        }
+    }
+    crate::stdout_line(&format!("selftest determinism: {} run comparisons, {} mismatches", total, mismatches));
+    if mismatches > 0 {
+        2
+    } else {
+        0
+    }
 }
